@@ -124,7 +124,9 @@ impl ConsumerGroup {
     pub fn new(name: String, stream_id: StreamId) -> Self {
         ConsumerGroup {
             name: name.clone(),
-            last_delivered_id: Arc::new(Mutex::new(StreamId::new(0, 0))),
+            // Delivery starts after the position the group was created at ($ = the last entry
+            // at that time, so only entries added later are delivered)
+            last_delivered_id: Arc::new(Mutex::new(stream_id)),
             stream_id,
             pending: Arc::new(RwLock::new(PendingEntryList::new())),
             consumers: Arc::new(RwLock::new(HashMap::new())),
